@@ -212,7 +212,12 @@ def verify_contract(c: Contract, registry: Dict[str, Contract], timeout_ms=core.
         "paths": 0, "unsupported": None,
     }
     try:
-        fn = resolve_target(c.target)
+        try:
+            fn = resolve_target(c.target)
+        except (AttributeError, ImportError) as e:
+            # the function under contract does not exist in this shape (renamed, rewritten as a class, moved): its obligations cannot be
+            # generated from this tree - undecided (the contract's bounded stand-in, if it has one, still runs on the real code)
+            raise Unsupported(f"target {c.target} not found in this tree: {type(e).__name__}: {e}")
         I = Interp()
         I.target_qualname = c.target
         I.callback_raise_classes = c.callback_raises
